@@ -13,7 +13,7 @@ SPEC = {'level': 'exploration',
             gen('vh_c60', 'c60_netaddr_rt', 100000, 2000000, min_cases_quick=30000,
                 floors={'ipv4': 0.2, 'ipv6': 0.2, 'torv3': 0.08, 'i2p': 0.08, 'cjdns': 0.08},
                 rule='v1/v2 serialization and string round trips of every network; all non-trivial'),
-            gen('vh_c60', 'c60_banman', 3000, 60000, min_cases_quick=400,
+            gen('vh_c60', 'c60_banman', 2000, 40000, min_cases_quick=400,
                 floors={'ban-subnet': 0.5, 'ban-address': 0.4, 'expiry-crossed': 0.3, 'unban-listed': 0.2, 'op-getbanned': 0.2, 'op-restart': 0.1, 'subnet-ban-covers-address': 0.4},
                 rule='ban histories vs reference list; non-trivial = subnet ban covering a probe address + expiry crossed + unban'),
             gen('vh_c60', 'up_netaddress', 3000, 60000, rule='upstream CNetAddr target (supplementary)'),
